@@ -33,6 +33,8 @@ pub const SITE_CLIP_REMOVED: u32 = 7;
 pub const SITE_CLIP_NEW_VERTEX: u32 = 8;
 /// One pop of the heap of the periodic nearest-neighbour iterator.
 pub const SITE_NN_HEAP_POP: u32 = 9;
+/// Entry of the exact (big-integer) in-sphere predicate.
+pub const SITE_EXACT_PREDICATE: u32 = 10;
 
 /// Register the callback invoked at scheduling points inside a cell.
 pub fn set_sched_point(f: Option<fn(u32)>) {
